@@ -152,7 +152,7 @@ def same(a, b):
     return False
 
 
-def resolve_names(spec, vars_):
+def resolve_names(spec, vars_, modified_vars=()):
     """Invariants name loop-carried local variables.  A local may be renamed without any change of behaviour: a name the
     code no longer has is resolved by ROLE - the contract declares the kind of the variable (set / list / dict / array) and
     the name is re-bound when exactly one local of that kind is not already claimed by another declared name."""
@@ -162,12 +162,15 @@ def resolve_names(spec, vars_):
         kinds.setdefault(nm, "list")
     alias = {}
     claimed = {nm for nm in kinds if nm in vars_}
+    is_int = lambda v: isinstance(v, int) and not isinstance(v, bool) or (is_z3(v) and v.sort() == INT)
     is_kind = {"set": lambda v: isinstance(v, MSet), "list": lambda v: isinstance(v, MList),
-               "dict": lambda v: isinstance(v, (dict, SMap)), "array": lambda v: type(v).__name__ == "NDArr"}
+               "dict": lambda v: isinstance(v, (dict, SMap)), "array": lambda v: type(v).__name__ == "NDArr",
+               "carried int": is_int}
     for nm, kd in kinds.items():
         if nm in vars_:
             continue
-        cands = [n2 for n2, v in vars_.items() if n2 not in claimed and n2 not in alias.values() and is_kind.get(kd, lambda v: False)(v)]
+        pool = {n2: v for n2, v in vars_.items() if kd != "carried int" or n2 in modified_vars}
+        cands = [n2 for n2, v in pool.items() if n2 not in claimed and n2 not in alias.values() and is_kind.get(kd, lambda v: False)(v)]
         if len(cands) == 1:
             alias[nm] = cands[0]
     return alias
@@ -648,7 +651,7 @@ def stateful_loop(it, coll, k, n, spec, modified, body_once, env, entry, entry_v
         raise Unsupported("print inside a stateful symbolic loop")
     tag = f"{qn}#loop{ordinal}"
 
-    alias = resolve_names(spec, entry_vars)
+    alias = resolve_names(spec, entry_vars, modified["vars"])
     sorts_by_actual = {alias.get(nm, nm): srt for nm, srt in (getattr(spec, "sorts", None) or {}).items()}
 
     def state(kterm, vars_, heap, store):
